@@ -850,10 +850,12 @@ func TestVerifE3Proto(t *testing.T) {
 			}
 		}
 		if i%25 == 0 {
-			if gd := good[id]; gd != nil {
+			// every bystander pair publishes / consumes regularly (whatever node the cases run on): a
+			// well-behaved client also answers the server's heartbeats, which needs traffic within 2 x 30 s
+			for gid, gd := range good {
 				if err := gd.Tick(); err != nil {
-					fail("ORACLE-FAIL key=bystander stream=- what=%v (after case %d on %s)", err, i, id)
-					delete(good, id)
+					fail("ORACLE-FAIL key=bystander stream=- what=%v (after case %d on %s)", err, i, gid)
+					delete(good, gid)
 				}
 			}
 		}
